@@ -10,7 +10,9 @@
 (*                                  instance: no such store exists in tunnox-core, see         *)
 (*                                  driver) - every other clause still is                      *)
 (*   Call   [p, op, id]            op = "Gen" (Generate / AllocateNodeID) | "Rel" (Release id) *)
-(*   Ret    [p, op, ok, id, err]   err = "" | "exhausted" | other error class                  *)
+(*   Ret    [p, op, ok, id, err]   err = "" | "exhausted" | other error class; a failed        *)
+(*                                  AllocateNodeID also carries own = what the allocator itself *)
+(*                                  now reports as its node id (GetNodeID)                      *)
 (*   Crash  [p]                    node p stopped (heartbeats ended) without releasing         *)
 (*   Expire [id]                   the store dropped the marker / claim key of id (TTL)        *)
 (*   Snap   [markers, quiet]       ids whose marker / claim key is live in the shared store;   *)
@@ -23,14 +25,19 @@
 (* Clauses (the statement of C15):                                                            *)
 (*   Duplicate       a successful Gen returns an id that is outstanding                       *)
 (*   Taken           a successful Gen returns an id that was taken before the trace began     *)
-(*   UncleanFailure  a Gen that fails does so with anything but the exhaustion error          *)
+(*   UncleanFailure  a Gen that fails does so with anything but the exhaustion error, or      *)
+(*                   (allocator) fails but keeps an id as its own (":stale-own-id")           *)
 (*                   ("fails cleanly instead of duplicating": with every candidate taken the  *)
 (*                   only accepted outcomes are that error - a success would be Taken or      *)
 (*                   Duplicate)                                                               *)
 (*   Unmarked        at quiescence an outstanding id has no live marker in the shared store   *)
 (*                   although nothing expired it and nobody released it (the next generation  *)
-(*                   anywhere would hand it out again); judged only on traces without an      *)
-(*                   earlier violation                                                        *)
+(*                   anywhere would hand it out again), or an id taken before the trace began *)
+(*                   has lost its marker although nobody released it (":pre-existing": its    *)
+(*                   live foreign owner is about to get a twin); judged only on traces        *)
+(*                   without an earlier violation                                             *)
+(* Store faults injected by the driver are not events: whatever a call does when a store      *)
+(* operation fails, its result must satisfy the same clauses.                                 *)
 EXTENDS VLib
 
 VARIABLES d, scope, taken,
@@ -66,6 +73,7 @@ TrRet == /\ Is("Ret")
                                  ELSE {})
                       /\ out' = out \cup {[id |-> Ev.id, p |-> Ev.p, n |-> l]}
                  ELSE /\ viol' = viol \cup (IF Ev.err = "exhausted" THEN {} ELSE {V("UncleanFailure", d \o ":" \o Ev.err)})
+                                       \cup (IF Has("own") /\ Ev.own # "" THEN {V("UncleanFailure", d \o ":stale-own-id")} ELSE {})
                       /\ out' = out
             ELSE UNCHANGED <<viol, out>>
          /\ l' = l + 1 /\ UNCHANGED <<d, scope, taken, expired>>
@@ -80,7 +88,11 @@ TrExpire == /\ Is("Expire")
 
 TrSnap == /\ Is("Snap")
           /\ LET missing == {r \in out : r.id \notin expired /\ r.id \notin Elems(Ev.markers)}
-             IN viol' = IF Ev.quiet /\ scope /\ viol = {} /\ missing # {} THEN {V("Unmarked", d)} ELSE viol
+                 lost    == {x \in taken : x \notin expired /\ x \notin Elems(Ev.markers)}
+             IN viol' = IF Ev.quiet /\ scope /\ viol = {}
+                        THEN (IF missing # {} THEN {V("Unmarked", d)} ELSE {})
+                             \cup (IF lost # {} THEN {V("Unmarked", d \o ":pre-existing")} ELSE {})
+                        ELSE viol
           /\ l' = l + 1 /\ UNCHANGED <<d, scope, taken, out, expired>>
 
 TrEnd == /\ Is("End") /\ EmitVerdict
